@@ -40,7 +40,10 @@ type ghostInfo struct{ typ types.Type }
 
 func (g ghostInfo) sort(u *Unit) string { return u.D.SortOf(g.typ) }
 
-type traceInfo struct{ tr *Trace }
+type traceInfo struct {
+	tr      *Trace
+	hasRecv bool
+}
 
 func (w *World) fail(format string, a ...any) {
 	w.errors = append(w.errors, fmt.Sprintf(format, a...))
@@ -515,7 +518,7 @@ func (w *World) pureApp(u *Unit, c *Contract, callee *ssa.Function, sig *types.S
 func (w *World) addTrace(t *Trace) {
 	w.Traces = append(w.Traces, t)
 	// ghost sorts from the target
-	var recvT, retT types.Type
+	var recvT, retT, argT types.Type
 	p := w.pkgByPath(t.Pkg)
 	if p != nil {
 		switch t.Kind {
@@ -553,6 +556,9 @@ func (w *World) addTrace(t *Trace) {
 				if len(fn.Params) > 0 {
 					recvT = fn.Params[0].Type()
 				}
+				if fn.Signature.Params().Len() > 0 {
+					argT = fn.Signature.Params().At(0).Type()
+				}
 				if fn.Signature.Results().Len() > 0 {
 					retT = fn.Signature.Results().At(0).Type()
 				}
@@ -563,6 +569,9 @@ func (w *World) addTrace(t *Trace) {
 	w.GhostSorts["t"+t.Tag] = ghostInfo{tInt}
 	if recvT != nil {
 		w.GhostSorts["recv"+t.Tag] = ghostInfo{recvT}
+	}
+	if argT != nil {
+		w.GhostSorts["arg"+t.Tag] = ghostInfo{argT}
 	}
 	if retT != nil {
 		w.GhostSorts["ret"+t.Tag] = ghostInfo{retT}
@@ -577,7 +586,7 @@ func (w *World) traceFor(u *Unit, callee *ssa.Function, c *ssa.CallCommon, contr
 	}
 	for _, t := range w.Traces {
 		if t.Kind == contract.Kind && t.Key == contract.Key && t.Pkg == contract.Pkg {
-			return &traceInfo{tr: t}
+			return &traceInfo{tr: t, hasRecv: c.Signature().Recv() != nil || c.IsInvoke()}
 		}
 	}
 	return nil
@@ -613,6 +622,16 @@ func (f *Frame) recordTrace(ti *traceInfo, st *state, args []Val, rs []Val) {
 	if gi, ok := u.W.GhostSorts["recv"+tag]; ok && len(args) > 0 && args[0].T != "" && u.D.SortOf(args[0].Typ) == gi.sort(u) {
 		u.scalar("$g.recv"+tag, gi.sort(u))
 		u.hset(st.heap, "$g.recv"+tag, args[0].T)
+	}
+	if gi, ok := u.W.GhostSorts["arg"+tag]; ok {
+		i := 0
+		if ti.hasRecv {
+			i = 1
+		}
+		if i < len(args) && args[i].T != "" && u.D.SortOf(args[i].Typ) == gi.sort(u) {
+			u.scalar("$g.arg"+tag, gi.sort(u))
+			u.hset(st.heap, "$g.arg"+tag, args[i].T)
+		}
 	}
 	if gi, ok := u.W.GhostSorts["ret"+tag]; ok && len(rs) > 0 {
 		u.scalar("$g.ret"+tag, gi.sort(u))
